@@ -1,7 +1,7 @@
 """C08 — conversion loops always make progress and terminate (R-PROGRESS, DESIGN.md §5)."""
 from mirlib import *
 from ranges import *
-import r_handle, t_dst, r_state, p_c09
+import r_handle, t_dst, r_state, p_c09, r_utf8enc
 
 MANIFEST = {
     'category': 'other',
@@ -13,7 +13,7 @@ MANIFEST = {
             'only early exit and NCR_EXTRA + 4 is the documented 14), so a fresh minimum-size sink always admits the next step; (c) no '
             'iteration spins: in every converter body each CFG cycle contains a unit fetch or a handle write, and a push-back (unread) that '
             'continues the loop has stored output first (ISO-2022-JP escape-then-retry); (d) every Unmappable result reports the unmappable character as consumed (a consumed() count, or position + k >= 1 in the single-byte UTF-16 loop), never the count after an unread(). The linear bound on the number of calls as such '
-            'follows from these only together with C02/C04 behaviour and is not separately decided.',
+            'follows from these only together with C02/C04 behaviour and is not separately decided. (R-UTF8ENC) the hand-written UTF-8 to UTF-8 encoder copies the longest prefix that fits and ends on a character boundary: the whole input with (InputEmpty, n, n) when it fits; otherwise the boundary search starts at exactly dst.len(), steps back by one over continuation bytes only, and the cut t is both what is copied (dst[..t] <- src[..t]) and what is reported (OutputFull, t, t). ',
     'note': 'Trusted: rustc MIR, mirx, rule library, documented minimum sizes (lib.rs docs: 4 / 2 / 4 / NCR_EXTRA + 4).',
     'technique': 'control-dependence rule on OutputFull constructions + capacity extraction + cycle/progress analysis on MIR CFGs',
 }
@@ -264,6 +264,7 @@ def run(rep, facts, tier):
         cap_use = r_handle.run(rep, f, c)
         capacities(rep, f, c, cap_use)
         no_spin(rep, f, c)
+        r_utf8enc.run(rep, f, c)
         r_state.pairing(rep, f, c, 'R-STATE')
         for w in p_c09.WRAPPERS:
             if w[4]:
